@@ -121,6 +121,57 @@ def malformed_checks():
     return probs
 
 
+BOOL_SIG = "C15.entries.bool_as_int_unreadable"
+
+
+def bool_for_int_probe():
+    """A `bool` handed in for an entry declared `int` (outside the Lean model, whose `EVal.int` is an exact int).
+    `True` passes the `isinstance(value, int)` check of update_for_epoch.  KNOWN FINDING `BOOL_SIG`: with '{}' /
+    '{!r}' it is written as the text 'True' and the next controller built on the file cannot be constructed
+    (`int('True')` raises ValueError in update_cache).  With '{:d}' / '{:0wd}' it is written as '1' and comes back as
+    the int 1 (declared type, equal value: no violation).
+    -> (observations {fmt: text}, problems [(fmt, what, signature)]); the known signature is used only for exactly
+    that behaviour (update accepted, 'True' in the file, ValueError from int() on the re-read); a rejected update is
+    fine; anything else is reported under the general signature "C15.entries"."""
+    from pydrobert.torch.training import TrainingStateParams
+    obs, probs = {}, []
+    for fmt in ("{}", "{!r}", "{:d}", "{:03d}"):
+        d = tempfile.mkdtemp(prefix="c15b_", dir=TMP_ROOT)
+        try:
+            csv_path, sd = os.path.join(d, "h.csv"), os.path.join(d, "st")
+            params = TrainingStateParams(num_epochs=None)
+            model, opt, ctl = _mk(params, csv_path, sd, [("flag", int, fmt)])
+            try:
+                ctl.update_for_epoch(model, opt, 1.0, 1.0, flag=True)
+            except (ValueError, TypeError) as e:
+                obs[fmt] = f"update_for_epoch rejects the bool ({type(e).__name__})"
+                continue
+            with open(csv_path, newline="") as f:
+                last_field = f.read().splitlines()[-1].split(",")[-1]
+            try:
+                _, _, ctl2 = _mk(params, csv_path, sd, [("flag", int, fmt)])
+                got = ctl2.get_info(1)["flag"]
+            except ValueError as e:
+                obs[fmt] = f"file holds {last_field!r}; re-read raises ValueError: {e}"
+                if last_field == "True" and "invalid literal for int()" in str(e):
+                    probs.append((fmt, f"bool for an int entry (fmt {fmt!r}): accepted, written as 'True', every later "
+                                       f"controller on the file raises ValueError: {e}", BOOL_SIG))
+                else:
+                    probs.append((fmt, f"bool for an int entry (fmt {fmt!r}): file holds {last_field!r}, re-read raises "
+                                       f"ValueError: {e}", "C15.entries"))
+                continue
+            obs[fmt] = f"file holds {last_field!r}; after restart {got!r} ({type(got).__name__})"
+            if type(got) is not int or got != 1:
+                probs.append((fmt, f"bool for an int entry (fmt {fmt!r}) comes back as {got!r} "
+                                   f"({type(got).__name__})", "C15.entries"))
+        except Exception as e:  # noqa: BLE001
+            obs[fmt] = f"raised {type(e).__name__}: {e}"
+            probs.append((fmt, f"bool for an int entry (fmt {fmt!r}): {type(e).__name__}: {e}", "C15.entries"))
+        finally:
+            shutil.rmtree(d, ignore_errors=True)
+    return obs, probs
+
+
 def run(rng, tier, report):
     n = 60 if tier == "quick" else 600
     done = 0
@@ -137,6 +188,10 @@ def run(rng, tier, report):
             done += 1
             for p in probs[:1]:
                 report["failures"].append(Failure({"kind": "entries", **case}, "user entries: " + p, None))
+        obs, probs = bool_for_int_probe()
+        report["extra"]["bool_for_int_entry_observation"] = obs
+        for fmt, what, sig in probs:
+            report["failures"].append(Failure({"kind": "bool_for_int_entry", "fmt": fmt}, "user entries: " + what, sig))
     report["extra"]["entries_cases"] = done
     report["extra"]["entries_note"] = ("user entries int/str/float with '{}'-style formats, strings over "
                                        + repr(ALPHABET) + ", restart at random epochs; implementation only")
